@@ -20,3 +20,4 @@ for c in "$@"; do
   echo "--- check $c:"; echo "$out"
 done
 git -C /repo checkout -q -- .
+git -C /verif checkout -q -- evidence 2>/dev/null
